@@ -1,5 +1,6 @@
 import NiVerif.DriverCore
 import NiVerif.Gen.TimeDelta
+import NiVerif.Gen.TimeDeltaFloat
 import NiVerif.Model.Mixed
 def main : IO Unit := Driver.run [
-  Driver.genHandler Gen.TimeDelta.dispatch, Model.Conv.dispatch, Model.Mixed.dispatch]
+  Driver.genHandler Gen.TimeDelta.dispatch, Driver.genHandler Gen.TimeDeltaFloat.dispatch, Model.Conv.dispatch, Model.Mixed.dispatch]
